@@ -587,7 +587,199 @@ fn failed_line_relation(rep: &mut Report, seed: u64) {
     rep.sample(json!({"failed-line-relation": ["stel a = 10", "a + 1; a / 0   // fails after a value was computed", "stel b = 2   // must show what it shows after `a + 1` alone, or after nothing"]}));
 }
 
+// ---------------------------------------------------------------------------------------
+// The interactive prompt itself (src/bin/nederlang.rs): the lines of a session are piped into the program built from
+// the tree; what it writes must be what a retained compiler and machine of the library answer, line by line.
+
+fn repl_exe() -> std::path::PathBuf {
+    crate::report::verif_dir().join("work/cli-target/debug/nederlang")
+}
+
+/// how the prompt shows a value (None: the text of this value is left open - U12, U16)
+fn shown(v: &Val, open: &mut Vec<usize>, known: &mut std::collections::HashMap<usize, Vec<Val>>, top: bool) -> Option<String> {
+    Some(match v {
+        Val::Null => {
+            if top {
+                String::new()
+            } else {
+                return None;
+            }
+        }
+        Val::Bool(b) => if *b { "ja" } else { "nee" }.to_string(),
+        Val::Int(i) => i.to_string(),
+        Val::Float(bits) => {
+            let f = f64::from_bits(*bits);
+            if !f.is_finite() || f.abs() >= 1e15 || (f != 0.0 && f.abs() < 1e-5) {
+                return None;
+            }
+            f.to_string()
+        }
+        Val::Str(s) => s.clone(),
+        Val::Func(_) | Val::Masked => return None,
+        Val::Arr(id, items) => {
+            known.insert(*id, items.clone());
+            open.push(*id);
+            let mut parts = Vec::new();
+            for it in items {
+                parts.push(shown(it, open, known, false)?);
+            }
+            open.pop();
+            format!("[{}]", parts.join(", "))
+        }
+        Val::Ref(id) => {
+            if open.contains(id) {
+                "[...]".to_string()
+            } else {
+                let items = known.get(id)?.clone();
+                shown(&Val::Arr(*id, items), open, known, false)?
+            }
+        }
+    })
+}
+
+/// Ok(None): not judged (a line may not end, or a value whose text is left open)
+fn repl_case(lines: &[String]) -> Result<Option<()>, Fail> {
+    use std::io::{Read, Write};
+    use std::os::unix::process::CommandExt;
+    // what the library answers
+    let mut want_out = String::new();
+    let mut want_err: Vec<&'static str> = Vec::new();
+    let mut s = session_begin();
+    let mut judged = true;
+    for l in lines {
+        let o = s.line(l, BUDGET);
+        want_out.push_str(">>> ");
+        want_out.push_str(&o.output);
+        match &o.outcome {
+            Outcome::Value(v) => match shown(v, &mut Vec::new(), &mut std::collections::HashMap::new(), true) {
+                Some(t) if t.is_empty() && matches!(v, Val::Null) => {}
+                Some(t) => {
+                    want_out.push_str(&t);
+                    want_out.push('\n');
+                }
+                None => judged = false,
+            },
+            Outcome::Error(k) => want_err.push(k.name()),
+            _ => judged = false,
+        }
+        if !judged {
+            break;
+        }
+    }
+    s.end();
+    crate::engine::install_gc_observer();
+    if !judged {
+        return Ok(None);
+    }
+    want_out.push_str(">>> ");
+    let input: String = lines.iter().map(|l| format!("{l}\n")).collect();
+    let case = json!({"kind": "repl", "lines": lines});
+    let mut child = std::process::Command::new("timeout")
+        .process_group(0)
+        .arg("--signal=KILL")
+        .arg("60")
+        .arg(repl_exe())
+        .stdin(std::process::Stdio::piped())
+        .stdout(std::process::Stdio::piped())
+        .stderr(std::process::Stdio::piped())
+        .spawn()
+        .unwrap_or_else(|e| {
+            eprintln!("C17: cannot run {}: {e} (the check script builds it)", repl_exe().display());
+            std::process::exit(2)
+        });
+    if let Some(mut si) = child.stdin.take() {
+        let _ = si.write_all(input.as_bytes());
+    }
+    let mut so = child.stdout.take();
+    let mut se = child.stderr.take();
+    let t_out = std::thread::spawn(move || {
+        let mut b = Vec::new();
+        if let Some(o) = so.as_mut() {
+            let _ = o.take(1 << 20).read_to_end(&mut b);
+            let _ = std::io::copy(o, &mut std::io::sink());
+        }
+        String::from_utf8_lossy(&b).to_string()
+    });
+    let t_err = std::thread::spawn(move || {
+        let mut b = Vec::new();
+        if let Some(o) = se.as_mut() {
+            let _ = o.take(1 << 20).read_to_end(&mut b);
+            let _ = std::io::copy(o, &mut std::io::sink());
+        }
+        String::from_utf8_lossy(&b).to_string()
+    });
+    let st = child.wait();
+    let got_out = t_out.join().unwrap_or_default();
+    let got_err = t_err.join().unwrap_or_default();
+    let code = st.ok().and_then(|s| s.code());
+    if code != Some(0) {
+        // (a program that does not end is killed after 60 s and shows here as well)
+        return Err(("repl:does-not-end-in-order".into(), case, "exit code 0 at the end of the input".into(), format!("status {code:?}; stderr: {}", got_err.chars().take(300).collect::<String>())));
+    }
+    if got_out != want_out {
+        return Err(("repl:stdout".into(), case, format!("{want_out:?}"), format!("{got_out:?}")));
+    }
+    let got_kinds: Vec<String> = got_err.lines().map(|l| l.split('(').next().unwrap_or("").to_string()).collect();
+    if got_kinds != want_err.iter().map(|k| k.to_string()).collect::<Vec<_>>() {
+        return Err(("repl:stderr".into(), case, format!("{want_err:?}"), format!("{got_kinds:?}")));
+    }
+    Ok(Some(()))
+}
+
+fn repl_driver(rep: &mut Report, ctx: &Ctx) {
+    use proptest::prelude::RngCore;
+    let mut sessions: Vec<Vec<String>> = Vec::new();
+    // every pair of alphabet lines, and generated sessions (lines cut by the budget left out)
+    let alpha = alphabet();
+    for a in &alpha {
+        for b in &alpha {
+            sessions.push(vec![alpha[0].text(), a.text(), b.text()]);
+        }
+    }
+    let mut runner = crate::tape::runner(ctx.seed.wrapping_mul(553_105_253), 1);
+    for _ in 0..ctx.pick(1_500u32, 30_000u32) {
+        let mut tape = vec![0u8; 300];
+        runner.rng().fill_bytes(&mut tape);
+        sessions.push(gen_session(&tape).iter().filter(|l| l.cut.is_none()).map(|l| l.text()).collect());
+    }
+    let sessions = std::sync::Arc::new(sessions);
+    let shards = ctx.shards;
+    let failures = std::sync::Arc::new(std::sync::atomic::AtomicUsize::new(0));
+    let sub = par_shards(shards, Report::new("C17", "fault_enumeration", ""), {
+        let sessions = sessions.clone();
+        let failures = failures.clone();
+        move |shard, r| {
+            for (i, lines) in sessions.iter().enumerate() {
+                if i % shards != shard || failures.load(std::sync::atomic::Ordering::Relaxed) >= 3 {
+                    continue;
+                }
+                crate::engine::note_current("done", "");
+                match repl_case(lines) {
+                    Ok(Some(())) => {
+                        r.eval();
+                        r.count("prompt-sessions");
+                        if lines.len() >= 3 {
+                            r.nontrivial(&format!("prompt:{lines:?}"));
+                        }
+                    }
+                    Ok(None) => r.count("prompt-sessions-not-judged"),
+                    Err(f) => {
+                        failures.fetch_add(1, std::sync::atomic::Ordering::Relaxed);
+                        r.violation(Violation { property: "C17".into(), driver: "prompt".into(), class: f.0, case: f.1, expected: f.2, observed: f.3 });
+                    }
+                }
+            }
+        }
+    });
+    rep.merge(sub);
+    rep.sample(json!({"prompt": ["stel a = 1", "a +", "a + 1"], "expects": ">>> >>> >>> 2\n>>>  on stdout, one SyntaxError on stderr"}));
+}
+
 pub fn replay(case: &Value) -> Option<Violation> {
+    if case.get("kind").and_then(|k| k.as_str()) == Some("repl") {
+        let lines: Vec<String> = case.get("lines")?.as_array()?.iter().filter_map(|x| x.as_str().map(|s| s.to_string())).collect();
+        return repl_case(&lines).err().map(|f| Violation { property: "C17".into(), driver: "replay".into(), class: f.0, case: case.clone(), expected: f.2, observed: f.3 });
+    }
     if case.get("kind").and_then(|k| k.as_str()) == Some("failed-line-relation") {
         let failing = case.get("failing")?.as_str()?;
         let same_as = case.get("same_as").and_then(|s| s.as_str());
@@ -625,6 +817,7 @@ pub fn run_check(ctx: &Ctx) -> Report {
          and failing lines: parse error, compile errors after a declaration and inside a loop with a pending stop, run-time errors after assignments), plus generated sessions of up to 13 lines (lines of the same kinds, compile errors at every statement position, \
          run-time errors inside functions and loops, and lines cut short by the instruction budget after k instructions). Oracle: every line must produce what the same line produces as the last line of ONE program made of the effective earlier lines (nederlang::eval of the concatenation); \
          a line that fails statically contributes nothing, a line that fails at run time contributes the statements it completed. \
+         The prompt itself (src/bin/nederlang.rs, built from the tree): the lines of all 3-line alphabet sessions and of generated sessions are piped into the program; its standard output must be, prompt by prompt, the printed text and the value that a retained compiler and machine of the library answer, its standard error one error of the same kind per failing line, and it must end with exit code 0. \
          Relation (implementation against itself): after a failing line, every later line - also one whose value is left open (U1) - shows what it shows after a successful line that makes the same completed assignments, or after no line at all (22 failing lines x 16 later lines + generated sequences). non-trivial = a failing line is followed by another line, or a line reads state written two or more lines earlier; distinct by session text",
     );
     rep.assumptions.push("U1: the value of a line that ends with a declaration is not compared".into());
@@ -704,7 +897,8 @@ pub fn run_check(ctx: &Ctx) -> Report {
     }
     failed_line_relation(&mut rep, seed);
     rep.extra.insert("exhaustive_parts".into(), json!(["all sessions of <=3 lines over the 22-line alphabet (11 154 sessions)", "every cut point k of three multi-statement lines"]));
-    par_shards(ctx.shards, rep, move |shard, r| {
+    let ctx2 = ctx.clone();
+    let mut rep = par_shards(ctx.shards, rep, move |shard, r| {
         let alpha = alphabet();
         let n = alpha.len();
         let mut idx = 0usize;
@@ -775,5 +969,7 @@ pub fn run_check(ctx: &Ctx) -> Report {
                 }
             }
         }
-    })
+    });
+    repl_driver(&mut rep, &ctx2);
+    rep
 }
